@@ -1,5 +1,5 @@
 """C05 - ragged containers: every selection equals the same selection on nested lists."""
-from harness import core, ragged
+from harness import core, ragged, stress
 
 
 class C05(core.Check):
@@ -7,25 +7,104 @@ class C05(core.Check):
     driver = 'drv_ragged'
     quick_cases = 12000
     thorough_cases = 120000
-    rule = ('random containers (0-6 rows x 0-5 cols, cell lengths 0-4 incl. all-empty, int and float payload) x '
-            'programs of 1-6 selections from the IndexSelectType grammar (int/slice/list/range/tensor/mask, both axes, '
-            'tuples, single cells, ~12% deliberately illegal); a case is non-trivial when at least one step returns a '
-            'container with >=1 cell; distinct = distinct (container, program) hash')
-    partial_notes = ('"no selection modifies its source" is checked on the real objects (snapshot before/after), '
-                     'the functional Lean model cannot express aliasing',)
+    rule = ('random containers (0-6 rows x 0-5 cols, cell lengths 0-4 incl. all-empty; payload int64 / int32 / float32 / '
+            'float64 with sentinel look-alikes and edge magnitudes (-1.0, -0.0, +-inf, 2^24+2, float64-only values) in 30% '
+            'of them; storage optionally handed over as non-contiguous views) x programs of 1-6 selections from the '
+            'IndexSelectType grammar (int/slice/list/range/int64 or int32 tensor/mask, both axes, tuples, single cells, '
+            '~12% deliberately illegal); aliasing family: the SAME index tensor object on both axes of m[idx, idx] / in '
+            'several steps (axes of different size), the caller\'s tensor compared with its content afterwards; scale '
+            'family (per run: 80 / 150 / 500 containers + 6 / 16 / 30 heavy ones at stress level 0 / 1 / 2): rows, columns, cell length and column '
+            'width from the stress ladder (<= 259 / 4 099 / 4 099), plus `heavy` containers in which ONE gather moves '
+            '>= 16 385 / 32 769 (thorough: 65 537) values - always with empty cells, all-empty rows (leading / interior / '
+            'consecutive / trailing) and zero-width columns; long structured index lists (runs, reversed, strides, '
+            'constants, sorted with duplicates, permutations; interior entries disturbed; negative spellings), long masks; '
+            'a case is non-trivial when at least one step returns a container with >=1 cell; distinct = distinct '
+            '(container, program) hash')
+    partial_notes = ('"no selection modifies its source" (and: does not modify the index tensor it is given) is checked on '
+                     'the real objects (snapshot before/after), the functional Lean model cannot express aliasing',)
+    N_SCALE = {0: 80, 1: 150, 2: 500}
+    N_HEAVY = {0: 6, 1: 16, 2: 30}
+    N_HUGE = {0: 0, 1: 0, 2: 4}      # 16 385 .. 65 539 rows: judged by the direct oracle only (too large for the model driver)
 
     def generate(self, rng, n, tier):
-        for _ in range(n):
-            spec = ragged.gen_cells(rng, rng.choice(['mnt', 'met']))
-            payload = rng.choice(['int', 'float'])
-            yield {'spec': spec, 'payload': payload, 'ops': ragged.gen_ops(rng, spec['R'], spec['C'])}
+        lv = self.level
+        n_heavy, n_scale = min(self.N_HEAVY[lv], n // 4), min(self.N_SCALE[lv], n // 2)
+        for i in range(n):
+            payload = rng.choice(['int', 'float', 'int', 'float', 'int32', 'float64'])
+            kind = rng.choice(['mnt', 'met'])
+            if i < self.N_HUGE[lv]:
+                spec = ragged.gen_cells_scaled(rng, kind, lv, payload, 'tall',
+                                               R=rng.choice(stress.LADDER_BIG) + rng.choice([0, 1, 2]))
+                yield {'spec': spec, 'payload': payload, 'fam': 'huge', 'oracle_only': True,
+                       'ops': ragged.gen_ops(rng, spec['R'], spec['C'], 2, level=lv, big=True)}
+            elif i < n_heavy:
+                spec = ragged.gen_cells_scaled(rng, kind, lv, payload, 'heavy')
+                yield {'spec': spec, 'payload': payload, 'ops': self.heavy_ops(rng, spec), 'fam': 'heavy'}
+            elif i < n_heavy + n_scale:
+                spec = ragged.gen_cells_scaled(rng, kind, lv, payload,
+                                               rng.choice([s for s in ragged.SHAPES[kind] if s != 'heavy']))
+                yield {'spec': spec, 'payload': payload, 'fam': 'scale',
+                       'ops': ragged.fit_program(lambda: ragged.gen_ops(rng, spec['R'], spec['C'], 3, level=lv, big=True),
+                                                 spec['cells'], spec['C'], ragged.BUDGET[lv])}
+            elif rng.random() < .04:
+                spec = ragged.gen_cells(rng, kind, rng.choice([1, 2, 3, 4, 5, 6]), rng.choice([1, 2, 3, 4, 5, 7]), payload)
+                yield {'spec': spec, 'payload': payload, 'ops': ragged.gen_alias_ops(rng, spec['R'], spec['C']),
+                       'fam': 'alias'}
+            else:
+                spec = ragged.gen_cells(rng, kind, payload=payload)
+                yield {'spec': spec, 'payload': payload, 'ops': ragged.gen_ops(rng, spec['R'], spec['C'])}
+
+    def heavy_ops(self, rng, spec):
+        """the first step is a gather (index list / tensor / mask / stepped slice over the rows, or a column selection
+        that is not the identity) that moves >= 16 385 values; 0-2 further random steps follow"""
+        R, C = spec['R'], spec['C']
+        cells = spec['cells']
+        for _ in range(60):
+            via = rng.choice(['select', 'getitem', 'api'])
+            if spec['kind'] == 'met' or rng.random() < .5:
+                ix = ragged.gen_index(rng, C, allow_bad=False)
+                first = {'op': 'sel', 'ix': ix, 'dim': 1, 'via': via}
+                gathers = not (ix['t'] == 'slice' and ix['s'] in (None, 1) and spec['kind'] == 'met') and \
+                    ragged.py_select(list(range(C)), ix) != list(range(C))
+            else:
+                ix = ragged.gen_big_index(rng, R, self.level, allow_bad=False, max_len=R + 2)
+                first = {'op': 'sel', 'ix': ix, 'dim': 0, 'via': via}
+                gathers = ix['t'] in ('list', 'mask') or (ix['t'] == 'slice' and (ix['s'] or 1) > 1)
+            ref, ncols = ragged.ref_apply(cells, C, first)
+            moved = sum(len(c) for c in ref[0]) if spec['kind'] == 'met' and ref else sum(len(c) for row in ref for c in row)
+            total = sum(len(c) for row in ref for c in row)
+            if gathers and moved >= 16385 and total <= ragged.BUDGET[self.level]:
+                break
+        else:
+            first = {'op': 'sel', 'ix': {'t': 'int', 'i': 0}, 'dim': 1, 'via': 'select'}      # the heavy column itself
+            ref, ncols = ragged.ref_apply(cells, C, first)
+        r, c = len(ref), ncols
+        if rng.random() < .6:
+            more = ragged.fit_program(lambda: ragged.gen_ops(rng, r, c, 2, allow_bad=False, level=self.level, big=True,
+                                                             heavy=True), ref, c, ragged.BUDGET[self.level])
+        else:
+            more = []
+        return [first] + more
+
+    def _key(self, case):
+        """hash of a case (memoised for the case object handled last: real and oracle are called back to back)"""
+        if getattr(self, '_last', (None, None))[0] is not case:
+            self._last = (case, core.stable_hash(case))
+        return self._last[1]
 
     def real(self, case):
-        outs, _, findings = ragged.run_real_program(case['spec'], case['payload'], case['ops'])
-        self._findings = findings
+        try:
+            outs, _, findings = ragged.run_real_program(case['spec'], case['payload'], case['ops'])
+        except Exception as e:     # a library that hands back unreadable objects must yield a finding, not a crash
+            outs, findings = [f'unreadable:{type(e).__name__}'], [(0, 'reading a result raises unexpectedly', None, None)]
+        # findings of the direct oracle are produced while the real code runs; they are remembered per case so that
+        # `oracle(case, outcome)` is a function of the case (the engine calls it again when it builds the verdict)
+        self.__dict__.setdefault('_fcache', {})[self._key(case)] = findings
         return outs
 
     def model_requests(self, case):
+        if case.get('oracle_only'):
+            return []
         ops = []
         for op in case['ops']:
             if op['op'] == 'sel':
@@ -37,11 +116,17 @@ class C05(core.Check):
         return [{'cmd': 'prog', 'kind': case['spec']['kind'], 'base': ragged.canonical_repr(case['spec']), 'ops': ops}]
 
     def model_outcome(self, case, replies):
+        if case.get('oracle_only'):
+            return core.SKIP_MODEL
         return replies[0]
 
     def oracle(self, case, real_outcome):
-        if self._findings:
-            k, what, exp, got = self._findings[0]
+        h = self._key(case)
+        if h not in self.__dict__.setdefault('_fcache', {}):
+            self.real(case)
+        findings = self._fcache[h]
+        if findings:
+            k, what, exp, got = findings[0]
             op = case['ops'][k]
             kind = case['spec']['kind']
             key = f'{kind}/{op["op"]}/{what}'
@@ -55,19 +140,59 @@ class C05(core.Check):
         return None
 
     def classify(self, case, outs):
-        labs = [f"kind:{case['spec']['kind']}", f"payload:{case['payload']}",
-                f"rows:{case['spec']['R']}", f"cols:{case['spec']['C']}", f"steps:{len(case['ops'])}"]
+        spec = case['spec']
+        big = lambda x: str(x) if x <= 7 else '8..16' if x <= 16 else '17..256' if x <= 256 else '257..4096' if x <= 4096 else '4097+'
+        labs = [f"kind:{spec['kind']}", f"payload:{case['payload']}",
+                f"rows:{big(spec['R'])}", f"cols:{big(spec['C'])}", f"steps:{len(case['ops'])}"]
+        if case.get('fam'):
+            labs.append(f"fam:{case['fam']}" + (f":{spec['shape']}" if 'shape' in spec else ''))
+        if spec.get('special'):
+            labs.append('values:special-pool')
+        if spec.get('storage'):
+            labs.append('storage:strided-views')
+        if spec['R'] >= 257:
+            labs.append('scale:rows>=257' if spec['R'] < 16385 else 'scale:rows>=16385(oracle-only)')
+        if spec['C'] >= 257:
+            labs.append('scale:cols>=257')
+        if any(len(c) >= 257 for row in spec['cells'] for c in row):
+            labs.append('scale:cell-or-width>=257')
+        seen = {}
+        if any(op.get('twice') for op in case['ops']):
+            labs.append('history:selection-issued-twice')
+        for op in case['ops']:
+            for ix in ([op['ix']] if op['op'] == 'sel' else [op['ix0'], op['ix1']] if op['op'] == 'sel2' else []):
+                if ix.get('dt'):
+                    labs.append('dtype:index-int32')
+                if ix.get('view'):
+                    labs.append('alias:index-is-a-view')
+                if ix.get('pat'):
+                    labs.append(f"index-pattern:{'disturbed' if 'disturbed' in ix['pat'] else 'regular'}")
+                n = len(ix.get('is', ix.get('bs', [])))
+                if n >= 64:
+                    labs.append('scale:index-length>=64' if n < 1025 else 'scale:index-length>=1025')
+                if 'share' in ix:
+                    seen[ix['share']] = seen.get(ix['share'], 0) + 1
+        if any(v >= 2 for v in seen.values()):
+            labs.append('alias:index-reused')
         for op, o in zip(case['ops'], outs):
             if o is None:
                 continue
             res = 'raises' if o == 'raises' else 'ok'
             if op['op'] == 'sel':
                 labs.append(f"sel:{op['ix']['t']}/{op['ix'].get('as', '')}:dim{op['dim']}:{res}")
+                labs.append(f"via:{op.get('via')}")
             else:
                 labs.append(f"{op['op']}:{res}")
-            if isinstance(o, dict) and isinstance(o['ok'], dict) and o['ok']['R'] * o['ok']['C'] == 0:
-                labs.append('passes-through-empty')
-        return labs
+            if isinstance(o, dict) and isinstance(o['ok'], dict):
+                if o['ok']['R'] * o['ok']['C'] == 0:
+                    labs.append('passes-through-empty')
+                if o['ok']['values'] != 'bad-ndim':
+                    nv = len(o['ok']['values']) if spec['kind'] == 'mnt' else o['ok'].get('W', 0)
+                    for t in (32769, 16385, 1025):
+                        if nv >= t:
+                            labs.append(f'scale:gathered-values>={t}')
+                            break
+        return sorted(set(labs)) if case.get('fam') in ('heavy', 'scale', 'huge') else labs
 
     def extra_checks(self, rng, tier, report):
         """exhaustive slice box (thorough: bounds -9..9 u {None}; quick: -4..4), both kinds, both axes"""
@@ -112,19 +237,50 @@ class C05(core.Check):
         import torch
         from torch_frame.data.multi_tensor import _batched_arange
         counts = [[rng.choice([0, 0, 1, 2, 3, 5]) for _ in range(rng.randint(0, 7))] for _ in range(300)]
+        # ... and at scale: many segments, long segments, totals just above 16 384 / 32 768 (thorough: 65 536), with
+        # zero-length segments leading, in the interior (also consecutive) and trailing
+        from harness import stress
+        for _ in range({0: 6, 1: 16, 2: 30}[self.level]):
+            total = ragged.heavy_total(rng, self.level) if rng.random() < .6 else stress.pick_size(rng, self.level, 4099)
+            k = rng.choice([3, 17, 65, 140, 257])
+            cuts = sorted(rng.randint(0, total) for _ in range(k - 1))
+            cnt = [b - a for a, b in zip([0] + cuts, cuts + [total])]
+            for _ in range(rng.choice([1, 2, 5])):
+                j = rng.choice([0, k - 1, rng.randrange(k), rng.randrange(k)])
+                for jj in range(j, min(k, j + rng.choice([1, 1, 2, 3]))):
+                    cnt[jj] = 0
+            cnt[rng.randrange(k)] += total - sum(cnt)
+            counts.append(cnt)
         try:
             reps = core.Driver(self.driver).ask([{'cmd': 'ba', 'count': c} for c in counts])
             nbad = 0
             for c, rep in zip(counts, reps):
                 b, a = _batched_arange(torch.tensor(c, dtype=torch.long))
-                if not rep['agree'] or rep['batch'] != b.tolist() or rep['arange'] != a.tolist():
+                b, a = b.tolist(), a.tolist()
+                # the docstring of the helper, literally (independent of the model)
+                eb = [i for i, n in enumerate(c) for _ in range(n)]
+                ea = [j for n in c for j in range(n)]
+                if (b, a) != (eb, ea):
+                    report['violations'].append(core.Violation(
+                        'mnt/batched-arange/differs from its documented meaning',
+                        f'_batched_arange(count) with {len(c)} segments, {sum(c)} elements, zero-length segments at '
+                        f'{[i for i, n in enumerate(c) if n == 0][:8]} differs from cat(full)/cat(arange)',
+                        {'count': c}, None, None))
+                if not rep['agree'] or rep['batch'] != b or rep['arange'] != a:
                     nbad += 1
-                    report['broken'].append(f'correspondence (_batched_arange): count={c} model={rep} code={(b.tolist(), a.tolist())}')
-            report['extra']['batched_arange'] = {'cases': len(counts), 'disagreements': nbad}
+                    if nbad <= 3:
+                        report['broken'].append(f'correspondence (_batched_arange): count={c[:40]} ({len(c)} segments, total {sum(c)}) differs from the model')
+            report['extra']['batched_arange'] = {'cases': len(counts), 'disagreements': nbad,
+                                                 'largest_total': max(sum(c) for c in counts)}
         except Exception as e:
             report['broken'].append(f'_batched_arange comparison unavailable ({e})')
         report['extra']['slice_box'] = {'cases': len(reqs), 'bounds': f'-{B}..{B} and None', 'steps': str(steps),
                                         'sizes': str(list(sizes)), 'exhaustive': True, 'disagreements': bad}
+        report['extra']['observed_outside_generated_domain'] = [
+            'index tensors of dtype uint8 / int8 / int16: PyTorch advanced indexing itself rejects int8 / int16 '
+            '("tensors used as indices must be long, int, byte or bool") and reads uint8 as a (deprecated) mask, so '
+            'x[torch.tensor([2, 0, 1], dtype=torch.uint8)] raises IndexError; only int64 / int32 / bool index tensors '
+            'are generated']
 
 
 CHECK = C05()
